@@ -118,10 +118,11 @@ type lexedToken struct {
 }
 
 type tilingResult struct {
-	Tokens   []lexedToken
-	Problems []string // each "kind: detail"
-	Illegal  bool     // the stream ended with an ILLEGAL token
-	Cursors  int      // cursor positions checked
+	Tokens               []lexedToken
+	Problems             []string // each "kind: detail"
+	Illegal              bool     // the stream ended with an ILLEGAL token
+	Cursors              int      // cursor positions checked
+	CounterDisagreements int      // internal line/col counters (hook) that disagree with the table
 }
 
 func (r *tilingResult) addf(kind, format string, a ...any) {
@@ -216,7 +217,8 @@ func checkTiling(src string, withCursors bool) *tilingResult {
 		if after.Pos <= len(src) {
 			l, c := tab.pos(after.Pos)
 			if after.Line != l || after.Col != c {
-				res.addf("counters", "lexer at offset %d thinks it is at %d:%d, table says %d:%d", after.Pos, after.Line, after.Col, l, c)
+				// evidence only: what the property fixes are the positions of the tokens, checked above
+				res.CounterDisagreements++
 			}
 		}
 	}
